@@ -315,6 +315,87 @@ def python_default_ok(d, shape):
     return (not isinstance(got, NotPassed)) and jeq(got, d) and T == el
 
 
+LIT_SHAPES = [
+    lambda x: {"tags": [{"name": x}]},
+    lambda x: [{"n": x}, {"m": {"k": [x]}}],
+    lambda x: {"a": {"b": x, "c": []}},
+    lambda x: [[{"n": x}], []],
+    lambda x: {"a": [[{"k": x}], x, {}], "title": "kept", "_x": {"y": [{"z": None}]}},
+    lambda x: x,
+]
+
+
+def labelled_default_ok(shape, pos, x):
+    """the command-line path (materialize + title_labeller annotates EVERY dict of the document, also those inside literals):
+    nested container defaults come out of main(), parse() and serialize_json() exactly as written"""
+    import json
+    import os
+    import tempfile
+    from vf.common import realize, concretize_int, _tracing, jeq, exec_generated, NotPassed
+
+    shape, pos = concretize_int(shape, 0, len(LIT_SHAPES) - 1), concretize_int(pos, 0, 3)
+    d = LIT_SHAPES[shape](realize(x))
+    if pos == 0:
+        doc = {"type": "object", "title": "T", "properties": {"p": {"type": "integer"}}, "default": d}
+        loc = lambda T: T.default
+        jloc = lambda J: J["default"]
+    elif pos == 1:
+        doc = {"type": "object", "title": "T", "properties": {"p": {"default": d}}}
+        loc = lambda T: T.properties["p"].element.default
+        jloc = lambda J: J["properties"]["p"]["default"]
+    elif pos == 2:
+        doc = {"type": "object", "title": "T", "properties": {"p": {"type": "array", "items": {"type": ["object", "array", "integer", "null"], "title": "It", "default": d}}}}
+        loc = lambda T: T.properties["p"].element.items.default
+        jloc = lambda J: J["properties"]["p"]["items"]["default"]
+    else:
+        doc = {"type": "object", "title": "T", "properties": {"q": {"type": "object", "title": "In", "properties": {"r": {"anyOf": [{"type": "integer"}, {}], "default": d}}}}}
+        loc = lambda T: T.properties["q"].element.properties["r"].element.default
+        jloc = lambda J: J["definitions"]["In"]["properties"]["r"]["default"]
+
+    def go():
+        from statham.__main__ import main, parse_input_arg
+        from statham.schema.parser import parse
+        from statham.serializers.json import serialize_json
+        from statham.titles import title_labeller
+        from json_ref_dict import materialize, RefDict
+
+        dd = tempfile.mkdtemp(prefix="vf_c07_")
+        path = os.path.join(dd, "doc.json")
+        try:
+            with open(path, "w") as fh:
+                json.dump(doc, fh)
+            uri = parse_input_arg(path)
+            text = main(uri)
+            parsed = parse(materialize(RefDict.from_uri(uri), context_labeller=title_labeller()))
+        finally:
+            try:
+                os.remove(path)
+                os.rmdir(dd)
+            except OSError:
+                pass
+        T = parsed[0]
+        got = loc(T)
+        if isinstance(got, NotPassed) or not jeq(got, d):
+            return False
+        J = serialize_json(T)
+        if not jeq(jloc(J), d):
+            return False
+        ns = exec_generated(text)
+        if ns is None:
+            return False
+        g = loc(ns["T"])
+        return (not isinstance(g, NotPassed)) and jeq(g, d)
+
+    if _tracing():
+        from crosshair.tracers import NoTracing
+
+        from vf.prelude import real_hash
+
+        with NoTracing(), real_hash():
+            return go()
+    return go()
+
+
 DOC_SAFE = "chr(92) not in s and chr(13) not in s and chr(0) not in s and not s.endswith(chr(34)) and chr(34) * 3 not in s and all(not (0xD800 <= ord(c) <= 0xDFFF) for c in s)"
 
 
@@ -341,6 +422,8 @@ return default_ok({S}, d, {loc}, {jloc}, {nd})
     for shape in ("class", "property", "item"):
         hs.append(mk(f"c07_python_default_{shape}", f"d: {DT}", DPRE, f"return python_default_ok(d, {shape!r})", timeout=60, group="python",
                      expect="unknown", covers="exec(serialize_python(...)) keeps the default; generated text is realised per path"))
+    hs.append(mk("c07_default_labelled_nested", "shape: int, pos: int, x: bool", [f"0 <= shape < {len(LIT_SHAPES)}", "0 <= pos < 4"], "return labelled_default_ok(shape, pos, x)",
+                 timeout=200, group="default", covers="command-line path (every dict annotated by the title labeller): nested container defaults (dict in list in dict, list in list, keys named like annotations) at class / property / items / nested-property positions"))
     # descriptions
     excl = ctx.excl("C07-docstring-escape", DOC_SAFE)
     for via in (True, False):
